@@ -154,7 +154,7 @@ def run(ctx):
         variants = [v["name"] for v in prog.adts["bourse_book::types::Status"]["variants"]]
         ok = [(int(a), b) for a, b in doc_codes] == list(enumerate(variants))
         ctx.check(ok, "status", cls + ".order_status|doc", ctx.loc(f), "documented codes %s equal the declaration order of Status" % doc_codes, "documented codes %s vs Status variants %s" % (doc_codes, variants))
-    conv = [f for f in prog.fns.values() if f.name == "from" and f.crate.name == "bourse_book" and "From<bourse_book::types::Status>" in (f.impl_trait or "") + f.path]
+    conv = [f for f in prog.units() if f.name == "from" and f.crate.name == "bourse_book" and "From<bourse_book::types::Status>" in (f.impl_trait or "") + f.path]
     if len(conv) == 1:
         q = m.q(conv[0])
         table = {}
@@ -174,7 +174,7 @@ def run(ctx):
     def bool_side_table(f, param_name):
         q = m.q(f)
         table = {}
-        for blk in f.body.blocks:
+        for blk in q.body.blocks:
             if blk.cleanup:
                 continue
             for i, st in enumerate(blk.stmts):
@@ -211,13 +211,13 @@ def run(ctx):
             ctx.check(okm, "errors", cls + ".place_order", errs[0].loc() if errs else ctx.loc(f), "a core OrderError becomes PyValueError", "error mapping: %s" % [c.resolved for c in errs])
             own = [s_ for s_ in m.w.effects.summary(f)["sites"] if s_[0].root[0] == "param" and not s_[3].startswith("call ")]
             ctx.check(not own, "errors", cls + ".place_order|no-own-effects", ctx.loc(f), "the wrapper has no effect of its own besides the core call (a rejected order leaves the object unchanged, C12)")
-    fb = [f for f in prog.fns.values() if f.name == "from" and f.crate.name == "bourse_book" and f.sig.startswith("fn(bool) -> bourse_book::types::Side")]
+    fb = [f for f in prog.units() if f.name == "from" and f.crate.name == "bourse_book" and f.sig.startswith("fn(bool) -> bourse_book::types::Side")]
     if len(fb) == 1:
         t = bool_side_table(fb[0], "side")
         ctx.check(t == {True: "Bid", False: "Ask"}, "side", "From<bool>", ctx.loc(fb[0]), "Side::from(true) = Bid, from(false) = Ask", "From<bool> for Side maps %s" % t)
     else:
         ctx.lost("side", "From<bool> for Side")
-    sb = [f for f in prog.fns.values() if f.name == "from" and f.crate.name == "bourse_book" and f.sig.startswith("fn(bourse_book::types::Side) -> bool")]
+    sb = [f for f in prog.units() if f.name == "from" and f.crate.name == "bourse_book" and f.sig.startswith("fn(bourse_book::types::Side) -> bool")]
     if len(sb) == 1:
         q = m.q(sb[0])
         table = {}
